@@ -62,6 +62,9 @@ STATEMENT_STATUS = {
     "C01_spec_complete": "proved: the executable ISO reader Spec/Syntax.spellcheck accepts every well-formed spelled tree "
         "(odd hex included) with exactly the values used in the theorems; ESC_STRING / white space / digit tables of "
         "psparser.py proved equal to the ISO ones on the way",
+    "C01_sequence_nesting / C01_sequence_roundtrip_partial": "proved: several top-level objects read by successive "
+        "nextobject() calls (held-back integers, PSEOF hand-out) come out exactly once and in order, end to end from the "
+        "bytes at every buffer size",
     "not proved": "the converse (everything spellcheck accepts is a spelled tree of the family); the stream hand-off of "
         "PDFParser.do_keyword is modelled (Model/ObjParser.lean) and tied by correspondence only",
 }
@@ -685,6 +688,9 @@ def run_corpus(ctx: C.Ctx, batch: Batch, seen: Set[str]) -> None:
 def replay(ctx: C.Ctx, doc, batch: Optional[Batch] = None, origin: str = "replay", seen: Optional[Set[str]] = None):
     own = batch is None
     batch = batch or Batch(ctx)
+    if "pdf" in doc.get("input", {}):
+        replay_multi(ctx, doc)
+        return
     spelling, exp, reader, bufsiz, pad, trail, eol = from_json(doc["input"])
     feats = doc["input"].get("features", [])
     sizes = [bufsiz] if origin == "replay" else SIZES
@@ -703,6 +709,32 @@ def replay(ctx: C.Ctx, doc, batch: Optional[Batch] = None, origin: str = "replay
         batch.add("spec.spell " + C.hx(spelling), "spec.spell", doc["input"], exp)
     if own:
         batch.flush()
+
+
+def replay_multi(ctx: C.Ctx, doc) -> None:
+    from pdfminer.pdfdocument import PDFDocument
+    from pdfminer.pdfparser import PDFParser
+    from pdfminer.psparser import PSBaseParser
+    inp = doc["input"]
+    pdf = bytes.fromhex(inp["pdf"])
+    old = PSBaseParser.BUFSIZ
+    PSBaseParser.BUFSIZ = int(inp["bufsiz"])
+    try:
+        d = PDFDocument(PDFParser(BytesIO(pdf)))
+        got = None
+        for pos_, i in enumerate(inp["order"]):
+            try:
+                g = canon_impl(d.getobj(5 + i))
+            except BaseException as e:  # noqa: BLE001
+                g = "!" + type(e).__name__
+            if pos_ == inp["fetch"]:
+                got = g
+    finally:
+        PSBaseParser.BUFSIZ = old
+    ctx.case((pdf, "replay-multi"), True, branch="origin:replay")
+    if got != doc["expected"]:
+        ctx.fail(C.Failure(doc.get("what", "multi getobj"), inp, doc["expected"], got,
+                           {"min_features": ["multi_getobj"], "reader": "getobj"}))
 
 
 def run(ctx: C.Ctx) -> None:
@@ -742,6 +774,8 @@ def _run(ctx: C.Ctx) -> None:
             check_stream_object(ctx, batch, rng)
         if i % 3 == 0:
             check_sequence(ctx, batch, rng, seen)
+        if i % 12 == 0:
+            check_multi_getobj(ctx, batch, rng, seen)
         if len(batch.req) > 100000:
             batch.flush()
     batch.flush()
@@ -775,6 +809,73 @@ def check_stream_object(ctx: C.Ctx, batch: Batch, rng) -> None:
              sample={"object": repr(body), "bufsiz": bufsiz})
     batch.add("model.getobj %d 5 %s" % (bufsiz, C.hx(pdf[off:])), "model.getobj",
               {"object": body.hex(), "ascii": repr(body), "bufsiz": bufsiz, "eol": eol.hex()}, got)
+
+
+def check_multi_getobj(ctx: C.Ctx, batch: Batch, rng, seen_fail: Set[str]) -> None:
+    """Several indirect objects of ONE document fetched in arbitrary order (some twice) through the same
+    PDFDocument / PDFParser: the parser is re-positioned by seek() for every object, so tokenizer and operand
+    stack state left over from the previous object must not leak into the next one."""
+    from pdfminer.pdfdocument import PDFDocument
+    from pdfminer.pdfparser import PDFParser
+    from pdfminer.psparser import PSBaseParser
+    k = rng.choice([2, 3, 3])
+    vals = [gen_tree(rng, rng.randint(0, 3), [15]) for _ in range(k)]
+    feats = rng.sample(ALL_FEATURES, rng.randint(0, 6))
+    feats = [f for f in feats if f not in ("odd_hex", "eof_end")]
+    sp = Speller(rng, feats)
+    spellings = []
+    for v in vals:
+        sx = sp.spell(v)
+        # some objects end in the middle of what would be a token for a tokenizer that is not reset
+        trail = sp.ws1()
+        spellings.append(sx + trail)
+    eol = rng.choice([b"\n", b"\r\n"])
+    objs = {1: {"Type": "Catalog", "Pages": W.Ref(2)}, 2: {"Type": "Pages", "Kids": [], "Count": 0}}
+    for i, sx in enumerate(spellings):
+        objs[5 + i] = W.Raw(sx)
+    pdf = W.build_pdf(objs, 1, eol=eol)
+    order = [rng.randrange(k) for _ in range(k + 2)]
+    bufsiz = rng.choice(SIZES)
+    old = PSBaseParser.BUFSIZ
+    PSBaseParser.BUFSIZ = bufsiz
+    got = []
+    try:
+        try:
+            doc = PDFDocument(PDFParser(BytesIO(pdf)))
+            doc.caching = rng.random() < 0.5
+            for i in order:
+                try:
+                    got.append(canon_impl(doc.getobj(5 + i)))
+                except BaseException as e:  # noqa: BLE001
+                    if isinstance(e, LEX.Watchdog):
+                        raise
+                    got.append("!" + type(e).__name__)
+        except BaseException as e:  # noqa: BLE001
+            if isinstance(e, LEX.Watchdog):
+                raise
+            got = ["!" + type(e).__name__] * len(order)
+    finally:
+        PSBaseParser.BUFSIZ = old
+    ctx.case((pdf, tuple(order), bufsiz), True, branch="reader:getobj-multi",
+             sample={"objects": [repr(x) for x in spellings], "order": order, "bufsiz": bufsiz})
+    for pos_, i in enumerate(order):
+        exp = canon(vals[i])
+        if got[pos_] != exp:
+            ctx.branch("fail")
+            key = "multi-getobj"
+            if key in seen_fail:
+                return
+            seen_fail.add(key)
+            ctx.fail(C.Failure("an object fetched after other objects of the same document does not read back as its value",
+                               {"pdf": pdf.hex(), "order": order, "objects": [x.hex() for x in spellings],
+                                "ascii": [repr(x) for x in spellings], "bufsiz": bufsiz, "fetch": pos_},
+                               exp, got[pos_], {"min_features": ["multi_getobj"] + sorted(sp.used), "reader": "getobj",
+                                                "bufsiz": bufsiz, "kind": "multi"}))
+            return
+    for i, sx in enumerate(spellings):
+        off = pdf.index(b"%d 0 obj" % (5 + i))
+        batch.add("model.getobj %d %d %s" % (bufsiz, 5 + i, C.hx(pdf[off:])), "model.getobj",
+                  {"object": sx.hex(), "ascii": repr(sx), "bufsiz": bufsiz}, canon(vals[i]))
 
 
 OPERATORS = [b"cm", b"Tj", b"re", b"BT", b"ET", b"q", b"Q", b"Do", b"TJ", b"gs", b"W*", b"b*", b"'", b'"', b"BDC"]
